@@ -407,3 +407,83 @@ func (c *Ctx) ruleGhostConstrain() {
 	}
 	c.ob("R-GHOSTCONSTRAIN", "FindGHOST:constraint-follows-the-descent", call.Pos(), ok, why)
 }
+
+// R-FINALISE/setid (C17): a finalisation with a stale set id is refused before anything is written.
+func (c *Ctx) ruleFinaliseSetID() {
+	c.doc("R-FINALISE/setid", stateDir+" SetFinalisedHash: the call that persists the finalised sub-chain and empties the unfinalised-block map (handleFinalisedBlock) and every database Put are dominated by the accepting edge of the set-id check (setID not lower than the highest finalised one; directly or through a helper that compares its set-id parameter): a refused finalisation must change nothing, else the blocks are gone from memory while the head did not move and every later finalisation fails")
+	f := c.fn(stateDir, "(*BlockState).SetFinalisedHash")
+	if f == nil {
+		c.unresolved("(*BlockState).SetFinalisedHash")
+		return
+	}
+	if len(f.Params) < 4 {
+		c.unresolved("parameters of SetFinalisedHash")
+		return
+	}
+	setID := ssa.Value(f.Params[3])
+	comparesParam := func(g *ssa.Function, idx int) bool {
+		if g == nil || idx >= len(g.Params) {
+			return false
+		}
+		found := false
+		eachInstr(g, func(_ *ssa.BasicBlock, _ int, in ssa.Instruction) {
+			if bo, ok := in.(*ssa.BinOp); ok && isCmp(bo.Op) && (bo.X == ssa.Value(g.Params[idx]) || bo.Y == ssa.Value(g.Params[idx])) {
+				found = true
+			}
+		})
+		return found
+	}
+	accepts := func(cond ssa.Value, truth bool) bool {
+		// direct: setID < x is false / setID >= x is true
+		if bo, ok := cond.(*ssa.BinOp); ok {
+			if bo.X == setID && ((bo.Op == token.LSS && !truth) || (bo.Op == token.GEQ && truth)) {
+				return true
+			}
+			// helper: err := check(setID); err != nil is false
+			if e, neq, ok := nilCmp(cond); ok && truth != neq {
+				if ex, isEx := e.(*ssa.Extract); isEx {
+					e = ex.Tuple
+				}
+				if call, isCall := e.(*ssa.Call); isCall && call.Call.StaticCallee() != nil {
+					for i, a := range call.Call.Args {
+						if a == setID && comparesParam(call.Call.StaticCallee(), i) {
+							// only a pure check: the helper must not write
+							writes := false
+							eachInstr(call.Call.StaticCallee(), func(_ *ssa.BasicBlock, _ int, in2 ssa.Instruction) {
+								if c2, ok := in2.(*ssa.Call); ok && c2.Call.IsInvoke() && (c2.Call.Method.Name() == "Put" || c2.Call.Method.Name() == "Del") {
+									writes = true
+								}
+							})
+							return !writes
+						}
+					}
+				}
+			}
+		}
+		return false
+	}
+	n := 0
+	eachInstr(f, func(b *ssa.BasicBlock, _ int, in ssa.Instruction) {
+		call, ok := in.(*ssa.Call)
+		if !ok {
+			return
+		}
+		isWrite := false
+		what := ""
+		if cal := call.Call.StaticCallee(); cal != nil && cal.Name() == "handleFinalisedBlock" {
+			isWrite, what = true, "handleFinalisedBlock"
+		}
+		if call.Call.IsInvoke() && call.Call.Method.Name() == "Put" {
+			isWrite, what = true, "db.Put"
+		}
+		if !isWrite {
+			return
+		}
+		n++
+		c.ob("R-FINALISE/setid", fmt.Sprintf("SetFinalisedHash:%s#%d", what, n), call.Pos(), guardedBy(b, accepts),
+			what+" runs before the set id was compared with the highest finalised one")
+	})
+	if n == 0 {
+		c.unresolved("writes in SetFinalisedHash")
+	}
+}
